@@ -33,7 +33,10 @@ RULE = ("pattern copies sharing atoms: hetero chains A-B-A-B-.. with unequal / e
         "the others dropped, swapped for another element, or kept as the same element NUDGED by 1e-4..0.03 A (not shared by the "
         "documented 1e-5 A rule although within the search tolerance), optional extra atom, EMPTY replacement (plain Atoms(); the search pattern with every atom deleted; zero atoms + type tables; "
         "+ pair / bond coefficient tables); replace_all on/off; "
-        "ignore flag on/off; fraction 1 or < 1; atol in {.05, .02, .1}; return_num_matches on/off. Thorough: every template x every retained subset x drop/swap x extra x both "
+        "ignore flag on/off; fraction 1 or < 1; atol in {.05, .02, .1}; return_num_matches on/off. A second stream drives "
+        "the same cases (LAMMPS-oriented cells, all matches, no flags) through the command line entry point mofun_cli in-process "
+        "(input .lmpdat + .cml patterns written by the harness; exit status, propagated exception and the presence / content of the "
+        "output file judged). Thorough: every template x every retained subset x drop/swap x extra x both "
         "flags. Non-trivial = distinct input with >= 2 selected matches that share at least one atom.")
 
 REQUIRED = ("AtomsShouldNotBeDeletedTwice raised (and no structure returned)  <=>  not ignored, replacement non-empty and two "
@@ -170,10 +173,10 @@ def replacement_for(rng, pat, retain, other="drop", extra=False):
 
 
 def make_case(rng, kind=None, ncopies=None, retain=None, other=None, extra=None, replace_all=None, ignore=None, f=None,
-              empty=None):
+              empty=None, cell_kind=None):
     kind = kind or rng.choice(KINDS)
     ncopies = ncopies or rng.randint(2, MAXCOPIES[kind])
-    st = build(rng, kind, ncopies)
+    st = build(rng, kind, ncopies, cell_kind=cell_kind)
     pe, pp = st["pattern"]
     if retain is None:
         retain = [j for j in range(len(pe)) if rng.random() < 0.5]
@@ -289,6 +292,7 @@ def tags_of(inp, out):
         t.append("selected:%d" % len(out["used"]))
         t.append("share-atoms:%s" % shares(out))
     t.append("outcome:%s" % ("structure" if "ok" in out else out.get("err")))
+    t.append("entry:%s" % inp.get("via", "api"))
     return t + situations(inp, out)
 
 
@@ -308,6 +312,134 @@ def situations(inp, out):
                 seen.add(["shared-atom:retained-by-both", "shared-atom:removed-by-one", "shared-atom:removed-by-both"][
                     (x in dsets[i]) + (x in dsets[j])])
     return sorted(seen)
+
+
+# ------------------------------------------------------------------ the command line entry point (mofun_cli)
+
+def write_lmpdat(path, sj):
+    """a LAMMPS data file (atom style full) of a structure without terms, written from the case alone"""
+    cell = [[float(core.unq(v)) for v in row] for row in sj["cell"]]
+    with open(path, "w") as f:
+        f.write("c07 cli case\n\n%d atoms\n0 bonds\n0 angles\n0 dihedrals\n0 impropers\n\n%d atom types\n\n"
+                % (len(sj["atoms"]), len(sj["types"]["elem"])))
+        f.write("0.0 %r xlo xhi\n0.0 %r ylo yhi\n0.0 %r zlo zhi\n" % (cell[0][0], cell[1][1], cell[2][2]))
+        if cell[1][0] or cell[2][0] or cell[2][1]:
+            f.write("%r %r %r xy xz yz\n" % (cell[1][0], cell[2][0], cell[2][1]))
+        f.write("\nMasses\n\n")
+        for i, (m, lab) in enumerate(zip(sj["types"]["mass"], sj["types"]["label"])):
+            f.write("%d %r   # %s\n" % (i + 1, float(core.unq(m)), lab))
+        f.write("\nAtoms\n\n")
+        for i, a in enumerate(sj["atoms"]):
+            x, y, z = [float(core.unq(v)) for v in a["pos"]]
+            f.write("%d 1 %d %r %r %r %r\n" % (i + 1, a["ty"] + 1, float(core.unq(a["q"])), x, y, z))
+
+
+def write_cml(path, j):
+    with open(path, "w") as f:
+        f.write('<?xml version="1.0"?>\n<molecule>\n <atomArray>\n')
+        for i, a in enumerate(j["atoms"]):
+            x, y, z = [float(core.unq(v)) for v in a["pos"]]
+            f.write('  <atom id="a%d" elementType="%s" x3="%r" y3="%r" z3="%r"/>\n' % (i + 1, j["types"]["elem"][a["ty"]], x, y, z))
+        f.write(' </atomArray>\n <bondArray>\n </bondArray>\n</molecule>\n')
+
+
+def read_lmpdat_atoms(path):
+    """own minimal reader of the Atoms section (atom style full): [{"q": charge, "ty": type id}]"""
+    atoms, section = [], None
+    for line in open(path):
+        line = line.split("#")[0].strip()
+        if line in ("Atoms", "Masses", "Bonds", "Angles", "Dihedrals", "Impropers", "Pair Coeffs", "Bond Coeffs", "Angle Coeffs",
+                    "Dihedral Coeffs", "Improper Coeffs", "Velocities"):
+            section = line
+            continue
+        t = line.split()
+        if section == "Atoms" and len(t) >= 7:
+            atoms.append({"q": core.q(Fraction(t[3])), "ty": int(t[2]) - 1})
+    return atoms
+
+
+def cli_case(rng):
+    """an ordinary C07 case that can be driven through `mofun_cli input.lmpdat output.lmpdat -f search.cml -r replace.cml`:
+    LAMMPS-oriented cell, no terms, non-empty replacement, every match selected; the command line has neither the ignore
+    flag nor replace-all"""
+    kind = rng.choice(KINDS)
+    retain = [j for j in range(2 if kind == "star2" else 3) if rng.random() < 0.5]
+    other = rng.choice(["drop", "swap", "nudge"])
+    inp = make_case(rng, kind, rng.randint(2, min(3, MAXCOPIES[kind])), retain, other, (not retain and other == "drop") or rng.random() < 0.3,
+                    False, False, 1.0, empty=False, cell_kind=rng.choice(["ortho", "ortho", "tri+", "tri-"]))
+    inp["sj"]["terms"] = {k: [] for k in ("bond", "angle", "dihedral", "improper")}
+    inp["return_num"] = False
+    inp["via"] = "cli"
+    inp["op"] = "replace-c07-cli"
+    return inp
+
+
+def cli_run(inp):
+    """run the replacement through the click command in-process; returns an `out` record in the shape of the API runner:
+    ok = the structure that was WRITTEN (read back with the own reader) when the command exits 0 and leaves an output file;
+    err = overlap when the dedicated error propagates, the exit status is non-zero and NO output file exists"""
+    import random
+    import shutil
+    import tempfile
+    import mofun.mofun as mm
+    from click.testing import CliRunner
+    from mofun.cli.mofun_cli import mofun_cli
+    d = tempfile.mkdtemp(prefix="c07cli_")
+    rec = {}
+    real_find = mm.find_pattern_in_structure
+
+    def find_wrap(*a, **k):
+        o = real_find(*a, **k)
+        if isinstance(o, tuple) and len(o) == 3:
+            rec["found"] = ([[int(i) for i in t] for t in o[0]], np.array(o[1], dtype=float).tolist(),
+                            [[float(x) for x in qq.as_quat()] for qq in o[2]])
+        return o
+    try:
+        write_lmpdat(os.path.join(d, "in.lmpdat"), inp["sj"])
+        write_cml(os.path.join(d, "search.cml"), inp["pj"])
+        write_cml(os.path.join(d, "replace.cml"), inp["rj"])
+        outp = os.path.join(d, "out.lmpdat")
+        mm.find_pattern_in_structure = find_wrap
+        random.seed(inp["seed"])
+        np.random.seed(inp["seed"] % (2 ** 32))
+        try:
+            with core.quiet():
+                res = CliRunner().invoke(mofun_cli, [os.path.join(d, "in.lmpdat"), outp, "-f", os.path.join(d, "search.cml"),
+                                                     "-r", os.path.join(d, "replace.cml"), "--atol", repr(float(inp["atol"]))])
+        finally:
+            mm.find_pattern_in_structure = real_find
+        exc = type(res.exception).__name__ if (res.exception is not None and not isinstance(res.exception, SystemExit)) else None
+        written = os.path.exists(outp)
+        out = {"found": rec.get("found"), "sample": None, "n": None, "inputs_unchanged": True,
+               "cli": {"exit_code": res.exit_code, "exception": exc, "output_written": written, "stdout": (res.output or "")[-200:]}}
+        if exc == "AtomsShouldNotBeDeletedTwice":
+            out["err"] = ("overlap" if (not written and res.exit_code != 0) else
+                          "error:cli-overlap-error-but-%s" % ("an output file was written" if written else "exit status 0"))
+        elif exc is not None:
+            out["err"] = "error:cli-" + exc
+        elif res.exit_code == 0 and written:
+            out["ok"] = {"atoms": read_lmpdat_atoms(outp), "terms": {}}
+        else:
+            out["err"] = "error:cli-exit-%s-output-%s" % (res.exit_code, "written" if written else "missing")
+        if out["found"] is not None:
+            idx, pos, quats = out["found"]
+            out["used"] = [{"idx": idx[i], "pos": [[core.q(x) for x in pp] for pp in pos[i]], "quat": [core.q(x) for x in quats[i]]}
+                           for i in range(len(idx))]
+        return out
+    finally:
+        shutil.rmtree(d, ignore_errors=True)
+
+
+def cli_one(inp):
+    out = cli_run(inp)
+    bad = oracle_overlap(inp, out)
+    if isinstance(bad, tuple):
+        obs = dict(bad[1]) if isinstance(bad[1], dict) else {"observed": bad[1]}
+        obs["cli"] = out.get("cli")
+        bad = ("through the command line (mofun_cli INPUT OUTPUT -f SEARCH -r REPLACE): " + bad[0]
+               + ("; exit status %s, output file %s" % (out["cli"]["exit_code"], "written" if out["cli"]["output_written"] else "not written")),
+               obs)
+    return out, bad
 
 
 def record(ctx, inp, out, bad):
@@ -374,6 +506,12 @@ def run(ctx, oracle_only=False, scale=1):
         elif bad == "ambiguous" and not oracle_only:
             ctx.compared += 1
             ctx.disagree("replace", inp, None, None, "the selection of matches (random.sample) was not observable")
+    # the same property through the command line entry point (overlapping matches must make the command FAIL with the
+    # dedicated error and leave no output file; the others must write the replaced structure)
+    for _ in range(ctx.n(70, 500) * scale):
+        inp = cli_case(rng)
+        out, bad = cli_one(inp)
+        record(ctx, inp, out, bad)
     if oracle_only:
         return
     ops = [fl.replace_op(inp["sj"], inp["pj"], inp["rj"], out["used"], inp["replace_all"], inp["ignore"]) for inp, out in ties]
@@ -393,5 +531,5 @@ def replay(ctx, rec):
     inp = rec.get("input") or rec.get("correspondence", {}).get("input")
     if inp is None:
         return True
-    _, bad = one(inp)
+    _, bad = cli_one(inp) if inp.get("via") == "cli" else one(inp)
     return bad is None or bad == "ambiguous"
